@@ -87,7 +87,7 @@ Print Assumptions C03_every_caller_answered.
 (* ... and quiescence is reached: from every reachable state a bounded number of internal
    steps (at most 4 per waiting caller) answers every caller *)
 Theorem C03_no_caller_waits_forever : forall ls, wf_run h_init ls = true ->
-  exists ls', forallb internal ls' = true /\ contract_ok ls' = true /\
+  exists ls', forallb internal ls' = true /\ wf_run (run h_init ls) ls' = true /\
               all_answered (run h_init (ls ++ ls')) = true /\
               (length ls' <= measure (run h_init ls))%nat.
 Proof. exact no_caller_waits_forever. Qed.
@@ -106,12 +106,37 @@ Theorem C03_host_never_fails : forall ls, wf_run h_init ls = true ->
 Proof. exact host_never_fails. Qed.
 Print Assumptions C03_host_never_fails.
 
-(* without cancellations the hypotheses are exactly the controller contract *)
-Theorem C03_wf_run_no_cancel : forall ls s,
-  forallb (fun l => match l with Cancel _ => false | _ => true end) ls = true ->
+(* without cancellations and without a transport loss the hypotheses are exactly the controller contract *)
+Theorem C03_wf_run_no_cancel : forall ls s, h_lost s = false ->
+  forallb (fun l => match l with Cancel _ | Lose => false | _ => true end) ls = true ->
   contract_ok ls = true -> wf_run s ls = true.
 Proof. exact wf_run_no_cancel. Qed.
 Print Assumptions C03_wf_run_no_cancel.
+
+(* transport loss (Host.on_transport_lost, fix D16k): the theorems above hold for histories with a
+   loss as well ([Lose] is an ordinary label; after it nothing crosses the transport).  In addition,
+   once the transport is lost no command is put on the wire any more ... *)
+Theorem C03_nothing_sent_after_loss : forall ls s, h_lost s = true -> wf_run s ls = true ->
+  (length (h_to (run s ls)) <= length (h_to s))%nat.
+Proof. exact nothing_sent_after_loss. Qed.
+Print Assumptions C03_nothing_sent_after_loss.
+
+(* ... a caller that gets the semaphore after the loss fails at once and gives it back ... *)
+Theorem C03_lost_acquire_fails : forall s c s' o, h_lost s = true -> step_opt s (Acquire c) = Some (s', o) ->
+  o = [LostFailed c] /\ h_to s' = h_to s /\ h_sem s' = h_sem s /\ h_pending s' = h_pending s.
+Proof. exact lost_acquire_fails. Qed.
+Print Assumptions C03_lost_acquire_fails.
+
+(* ... and no caller waits forever: see C03_no_caller_waits_forever, whose conclusion after a loss is
+   "every caller is Done with its own response (it arrived before the loss), Cancelled or failed
+   with TransportLostError". *)
+Example C03_transport_lost_nonvacuous :
+  let ls := [Call 1 4105; Call 2 8216; Call 3 3092; Acquire 1; Lose; Resume 1; Acquire 2; Call 4 1030; Acquire 3;
+             Acquire 4] in
+  wf_run h_init ls = true /\
+  map phase_code (h_callers (run h_init ls)) = [(1, 5, 0); (2, 5, 0); (3, 5, 0); (4, 5, 0)] /\
+  all_answered (run h_init ls) = true /\ h_sem (run h_init ls) = 1 /\ h_to (run h_init ls) = [4105].
+Proof. exact transport_lost_example. Qed.
 
 (* cancelling a caller that is queued on the semaphore changes nothing but that caller: the
    semaphore, the pending command / response and both FIFOs stay as they are *)
@@ -266,6 +291,7 @@ Theorem C03_host_matches_source :
   C03HostShape.command_status_event = expected_command_status_event /\
   C03HostShape.flush = expected_flush /\
   C03HostShape.transport_lost = expected_transport_lost /\
+  C03HostShape.set_packet_source = expected_set_packet_source /\
   C03HostShape.touchers = expected_touchers /\
   C03HostShape.semaphore_permits = h_sem h_init.
 Proof. vm_compute. repeat split; reflexivity. Qed.
